@@ -864,7 +864,7 @@ static int sexp_grow_stack (sexp ctx, int min_size) {
   new_size = size * 2;
   if (new_size < min_size) new_size = min_size;
   if (new_size > SEXP_MAX_STACK_SIZE) {
-    if (size == SEXP_MAX_STACK_SIZE)
+    if (size == SEXP_MAX_STACK_SIZE || min_size > SEXP_MAX_STACK_SIZE)
       return 0;
     new_size = SEXP_MAX_STACK_SIZE;
   }
@@ -1040,7 +1040,7 @@ static void* sexp_thread_debug_event(sexp ctx) {
 #define sexp_ensure_stack(n)                                            \
   if (top+(n) >= sexp_stack_length(sexp_context_stack(ctx))) {          \
     sexp_context_top(ctx) = top;                                        \
-    if (sexp_grow_stack(ctx, (n))) {                                    \
+    if (sexp_grow_stack(ctx, top+(n)+1)) {                              \
       stack = sexp_stack_data(sexp_context_stack(ctx));                 \
     } else {                                                            \
       _ARG1 = sexp_global(ctx, SEXP_G_OOS_ERROR);                       \
